@@ -26,6 +26,12 @@ NATIVE_UNITS = {
                     "modpath": "interpreter::interpreter", "test": "verif_native_panic_probe",
                     "role": "witness", "for_fns": ["pop_proper", "pop", "number", "digital10", "number_suffix", "real",
                                                    "eval_primitive", "from_pair_iter"]},
+    "eval_location_witness": {"file": "src/interpreter/interpreter.rs", "source": "eval_location.rs",
+                              "modpath": "interpreter::interpreter", "test": "verif_native_eval_location_witness",
+                              "role": "witness", "for_fns": ["eval_expression"]},
+    "eval_kind_witness": {"file": "src/interpreter/interpreter.rs", "source": "eval_location.rs",
+                          "modpath": "interpreter::interpreter", "test": "verif_native_eval_kind_witness",
+                          "role": "witness", "for_fns": ["eval_expression"]},
     "tail_arity_witness": {"file": "src/interpreter/interpreter.rs", "source": "tail_arity.rs",
                            "modpath": "interpreter::interpreter", "test": "verif_native_tail_arity_witness",
                            "role": "witness", "for_fns": ["apply_procedure"]},
@@ -58,7 +64,7 @@ PROPS = {
         "assumptions": ["RefCell's dynamic borrow state is not modelled by Verus (a double borrow_mut would panic); Kani executes the real RefCell"],
     },
     "C07": {
-        "verus": ["pair_pop", "values_num", "interp_tail", "repl_complete", "macro_transform", "lexer_pos", "base_cmp", "base_folds"],
+        "verus": ["pair_pop", "values_num", "interp_tail", "interp_eval", "repl_complete", "macro_transform", "lexer_pos", "base_cmp", "base_folds"],
         "kani": ["values", "folds"], "native": ["panic_probe"],
         "level": "proof",
         "explanation": "Panic-freedom (no overflow, no failing unwrap/expect, no reachable todo!/unreachable!/panic!, no out-of-bounds index) "
@@ -72,7 +78,7 @@ PROPS = {
         "assumptions": [],
     },
     "C15": {
-        "verus": ["lexer_pos", "interp_loc"], "kani": [], "native": ["lexer_position_witness"],
+        "verus": ["lexer_pos", "interp_loc", "interp_eval"], "kani": [], "native": ["lexer_position_witness", "eval_location_witness"],
         "level": "proof",
         "explanation": "Two of the stages through which locations are threaded are proved for all inputs: Lexer::advance maintains the exact "
                        "1-based line and the column recurrence over the consumed prefix (so a token's position is never on an earlier line "
@@ -83,7 +89,8 @@ PROPS = {
                        "template-built data take the TEMPLATE's location (macros.rs substitude): an error inside a top-level `let` is "
                        "reported at a line of the bundled grammar.sld -- known to be wrong today, outside any obligation stated here, so "
                        "neither an alarm nor a KNOWN-FINDING line",
-                       "located_error! sites in eval_expression (function not under contract)"],
+                       "errors raised inside builtins and library procedures carry no location of their own: eval_ast's fall-back gives "
+                       "them the statement's location (proved); tail calls of a non-procedure likewise"],
         "assumptions": ["fewer than 2^32 lines and columns (u32 counters)", "std::iter::Peekable::next yields and drops the head of the remaining input"],
     },
     "C04": {
@@ -109,7 +116,7 @@ PROPS = {
         "assumptions": ["functional oracle for the opaque evaluator: one evaluation of the test and two are not distinguished"],
     },
     "C08": {
-        "verus": ["interp_tail", "values_num", "valref_mut", "base_cmp"], "kani": ["values"], "native": ["tail_arity_witness"],
+        "verus": ["interp_tail", "interp_eval_kind", "values_num", "valref_mut", "base_cmp"], "kani": ["values"], "native": ["tail_arity_witness", "eval_kind_witness"],
         "level": "proof",
         "explanation": "The argument-count test is proved to hold before EVERY hand-over to apply_scheme_procedure / a builtin body in the "
                        "trampoline loop (first call and every tail call), and an unacceptable count is proved to yield the ArgumentMissMatch "
